@@ -170,6 +170,7 @@ def run(ctx):
         _histories(ctx, res)
         _decompressed_items(ctx, res)
         _mod_dates(ctx, res)
+        _info_vs_listing(ctx, res)
         outs = ctx.driver.run(model_lines)
         for (inp, impl), o in zip(checks, outs):
             res.evaluations += 1
@@ -416,6 +417,45 @@ def _mod_dates(ctx, res):
         time.tzset()
         tree.close()
         pyg.reset_globals()
+
+
+def _info_vs_listing(ctx, res):
+    """The +INFO line of an item's own '!' answer against the line the plain Gopher menu of its directory shows for it, under the
+    shipped handler list (the UMN directory handler decorates the entries it lists: extension stripping, .cap files, link-file
+    blocks) and under the plain directory handler."""
+    tree = pyg.Tree()
+    try:
+        tree.write("d/plain.txt", b"p\n")
+        tree.write("d/noext", b"n\n")
+        tree.write("d/capped.txt", b"c\n")
+        tree.write("d/.cap/capped.txt", b"Name=Renamed by its cap file\nNumb=1\n")
+        tree.write("d/named.txt", b"n\n")
+        tree.write("d/.names", b"Path=./named.txt\nName=Renamed by a names block\n")
+        tree.write("d/sub/x.txt", b"x\n")
+        for hl, hname in ((None, "umn"), (pyg.DIR_HANDLERS, "dir")):
+            cfg = pyg.make_config(tree.root, hl, **{"handlers.dir.DirHandler|cachetime": "0"})
+            menu = pyg.request(reqs.build("gopher", "/d"), cfg).out or b""
+            for ln in menu.split(b"\r\n"):
+                f = ln.split(b"\t")
+                if len(f) < 4 or not f[1].startswith(b"/d/"):
+                    continue
+                sel = f[1].decode("utf-8", "surrogateescape")
+                r = pyg.request(reqs.build("gopherp", sel, gplus="!"), cfg)
+                m = re.search(rb"\+INFO: ([^\r\n]*)\r\n", r.out or b"")
+                res.evaluations += 1
+                res.nontrivial.add(("info-vs-listing", hname, sel))
+                info = m.group(1) if m else None
+                # (the menu of a plain Gopher request carries no Gopher+ flag; compare up to the port field)
+                want = b"\t".join(f[:4])
+                got = b"\t".join(info.split(b"\t")[:4]) if info is not None else None
+                if got != want:
+                    kind = ("cap" if sel.endswith("capped.txt") else "names" if sel.endswith("named.txt") else "extstrip") if hname == "umn" else "plain"
+                    res.violation("C15:info-differs-from-menu:" + hname + ":" + kind,
+                                  "the +INFO line of an item's '!' answer is not the item's line in the plain Gopher menu of its directory",
+                                  {"item": sel, "handlers": hname}, observed=info, required=want,
+                                  replay={"virtual": True, "selector": sel, "handlers": "shipped" if hname == "umn" else "dir"})
+    finally:
+        tree.close()
 
 
 def _decompressed_items(ctx, res):
